@@ -387,6 +387,60 @@ pub fn nest_messages(tag: u32, depth: usize) -> Vec<u8> {
     body
 }
 
+/// `depth` nested messages through field `tag`, the innermost one holding `leaf` as its body.
+pub fn nest_messages_leaf(tag: u32, depth: usize, leaf: &[u8]) -> Vec<u8> {
+    let mut body: Vec<u8> = leaf.to_vec();
+    for _ in 0..depth {
+        let mut o = Vec::with_capacity(body.len() + 8);
+        put_uvarint(&mut o, ((tag as u64) << 3) | 2);
+        put_uvarint(&mut o, body.len() as u64);
+        o.extend_from_slice(&body);
+        body = o;
+    }
+    body
+}
+
+/// A `Node` body without further nesting that uses every non-recursive field: packed runs of
+/// varints, fixed-width values and enums, the same fields unpacked, a scalar, strings.
+pub fn node_leaf_body() -> Vec<u8> {
+    let mut o = vec![];
+    // f7 repeated int64, packed [1, 300, u64::MAX]
+    let mut run = vec![];
+    put_uvarint(&mut run, 1);
+    put_uvarint(&mut run, 300);
+    put_uvarint(&mut run, u64::MAX);
+    put_uvarint(&mut o, (7 << 3) | 2);
+    put_uvarint(&mut o, run.len() as u64);
+    o.extend_from_slice(&run);
+    // f8 repeated fixed32, packed
+    put_uvarint(&mut o, (8 << 3) | 2);
+    put_uvarint(&mut o, 8);
+    o.extend_from_slice(&[1, 0, 0, 0, 0xff, 0xff, 0xff, 0xff]);
+    // f9 repeated enum, packed
+    put_uvarint(&mut o, (9 << 3) | 2);
+    put_uvarint(&mut o, 3);
+    o.extend_from_slice(&[0, 1, 9]);
+    // f10 repeated sint32, packed although declared unpacked
+    put_uvarint(&mut o, (10 << 3) | 2);
+    put_uvarint(&mut o, 2);
+    o.extend_from_slice(&[3, 4]);
+    // f11 repeated double, packed
+    put_uvarint(&mut o, (11 << 3) | 2);
+    put_uvarint(&mut o, 8);
+    o.extend_from_slice(&1.5f64.to_le_bytes());
+    // the same fields unpacked, a scalar, strings
+    put_uvarint(&mut o, 7 << 3);
+    put_uvarint(&mut o, 5);
+    put_uvarint(&mut o, (8 << 3) | 5);
+    o.extend_from_slice(&[7, 0, 0, 0]);
+    put_uvarint(&mut o, 4 << 3);
+    put_uvarint(&mut o, 77);
+    put_uvarint(&mut o, (6 << 3) | 2);
+    put_uvarint(&mut o, 4);
+    o.extend_from_slice(b"leaf");
+    o
+}
+
 /// `depth` nested groups with tag `tag` (start ... end).
 pub fn nest_groups(tag: u32, depth: usize) -> Vec<u8> {
     let mut o = vec![];
